@@ -156,6 +156,28 @@ def compare_racy_fail(spec: dict[str, Any], ref: dict[str, Any], got: dict[str, 
 
 def compare_outcome(spec: dict[str, Any], ref: dict[str, Any], got: dict[str, Any]) -> list[tuple[str, str]]:
     kind = classify(spec)
+    if kind == "confluent" and has_jump(spec):
+        # stages re-armed by a backward jump while they run beside the loop body (a side branch hanging off the jump target):
+        # how often they execute depends on whether they had started when the jump landed - 1 .. applied+1, not one number
+        from vlib.loopmodel import loop_model
+
+        model = loop_model(spec)
+        conc = set(model.get("concurrent", ()))
+        if conc and not model["diverged"]:
+            out = []
+            for clause, detail in compare_exact(ref, got, data=False):
+                if clause in ("extra-execution", "missing-execution"):
+                    continue
+                out.append((clause, detail))
+            for k in sorted(set(ref["counts"]) | set(got["counts"])):
+                stage_ref = k.split(".")[0]
+                r, g = ref["counts"].get(k, 0), got["counts"].get(k, 0)
+                if stage_ref in conc:
+                    if not (1 <= g <= model["applied"] + 1):
+                        out.append(("extra-execution" if g > r else "missing-execution", f"{k}: {g}x, a stage re-armed beside the loop may run 1..{model['applied'] + 1}x"))
+                elif g != r:
+                    out.append(("extra-execution" if g > r else "missing-execution", f"{k}: {g}x vs ref {r}x"))
+            return out
     if kind == "confluent":
         return compare_exact(ref, got, data=True)
     if kind == "racy-fail":
